@@ -513,7 +513,14 @@ func run(bin, prop, tier string, seed int64, replay string, nshards int, race bo
 	inconclusive := []string{}
 	for _, sr := range runs {
 		if sr.out != nil && sr.out.Done {
-			violations = append(violations, sr.out.Violations...)
+			for _, v := range sr.out.Violations {
+				if v.Key == "harness" {
+					// a panic in a generator or oracle is a broken check, not a violation
+					inconclusive = append(inconclusive, fmt.Sprintf("shard %d: campaign %s: %s (see %s)", sr.shard, v.Campaign, v.Msg, tailOf(sr.log)))
+					continue
+				}
+				violations = append(violations, v)
+			}
 			if sr.exitCode != 0 && len(sr.out.Violations) == 0 {
 				inconclusive = append(inconclusive, fmt.Sprintf("shard %d exited %d without a recorded violation (see %s)", sr.shard, sr.exitCode, tailOf(sr.log)))
 			}
